@@ -313,3 +313,152 @@ def get_runs(ctx, n_quick=24, n_thorough=240):
         old.unlink()
     path.write_text(json.dumps(recs))
     return cfgs, recs, False
+
+
+# ----------------------------------------------------------------------------- model replay
+SENT = 424242.0
+
+
+def _outcome_real(rec):
+    if rec["outcome"] == "design":
+        return "selected"
+    return rec["outcome"]
+
+
+def replay_line(rec):
+    """Line for the Lean driver that replays the search of this record on its recorded oracle, plus
+    the real (outcome, selection, trace) in the model's output vocabulary.  None when not replayable."""
+    from fractions import Fraction
+
+    cfg = rec["cfg"]
+    kind = cfg["geom"][0]
+    cap = cfg.get("max_boreholes")
+    cont = bool(cfg.get("cont"))
+    lo, hi = cfg["min_h"], cfg["max_h"]
+    ev = rec.get("evals", [])
+    if kind in ("NEARSQUARE", "RECTANGLE"):
+        counts = rec["counts"]
+        n = len(counts)
+        elo, ehi = [SENT] * n, [SENT] * n
+        tr = []
+        for e in ev:
+            if e["where"] != "flat":
+                return None
+            (ehi if e["h"] == hi else elo)[e["idx"]] = e["excess"]
+            tr.append(f"{e['idx']}:{'H' if e['h'] == hi else 'L'}")
+        import searchlib
+
+        line = searchlib.model_line_b1d(counts, elo, ehi, cap, cont, 15, lo, hi)
+        real = ("selected " + str(rec["sel_key"])) if rec["outcome"] == "design" else rec["outcome"]
+        return {"line": line, "real": real, "trace": " ".join(tr), "kind": "b1d"}
+    if kind in ("BIRECTANGLE", "BIRECTANGLECONSTRAINED", "BIZONEDRECTANGLE"):
+        nc = rec["nested_counts"]
+        if not nc or any(len(x) == 0 for x in nc):
+            return None
+        elo = [[SENT] * len(x) for x in nc]
+        ehi = [[SENT] * len(x) for x in nc]
+        tr = []
+        last_list = None
+        for e in ev:
+            if e["where"] == "outer":
+                l, i = (0, 0) if e["idx"] == 0 else (e["idx"] - 1, len(nc[e["idx"] - 1]) - 1)
+            elif e["where"] == "inner":
+                l, i = e["list"], e["idx"]
+                last_list = l
+            else:
+                return None
+            (ehi if e["h"] == hi else elo)[l][i] = e["excess"]
+            tr.append(f"{l}.{i}:{'H' if e['h'] == hi else 'L'}")
+        import searchlib
+
+        if kind == "BIZONEDRECTANGLE":
+            sz = [[0.0] * len(x) for x in nc]
+            for l, tot in rec.get("zd_heights", {}).items():
+                k = rec.get("zd_selected_keys", {}).get(l)
+                if k is not None:
+                    sz[int(l)][k] = tot / nc[int(l)][k]
+            line = searchlib.model_line_bzd(nc, elo, ehi, sz, cap, cont, 15, lo, hi)
+            sel_l = None
+            if rec["outcome"] == "design" and rec.get("zd_heights"):
+                tots = rec["zd_heights"]
+                sel_l = min(tots, key=lambda k: (tots[k], list(tots).index(k)))
+            real = f"selected {sel_l} {rec['sel_key']}" if rec["outcome"] == "design" else rec["outcome"]
+            return {"line": line, "real": real, "trace": " ".join(tr), "kind": "bzd"}
+        line = searchlib.model_line_b2d(nc, elo, ehi, cap, cont, 15, lo, hi)
+        real = f"selected {last_list} {rec['sel_key']}" if rec["outcome"] == "design" else rec["outcome"]
+        return {"line": line, "real": real, "trace": " ".join(tr), "kind": "b2d"}
+    if kind == "ROWWISE":
+        rows = rec.get("rw_tracking")
+        if rows is None:      # the search raised: advanced_tracking is not available
+            return None
+        geom = cfg["geom"]
+        stop, start, step = geom[2], geom[3], geom[4]      # max_spacing, min_spacing, spacing_step
+        body = rows[:-1]       # last row repeats the selection
+        table, esub, tr = {}, {}, []
+        e1 = SENT
+        sp_rows = [r for r in body if isinstance(r[0], float)]
+        sub_rows = [r for r in body if isinstance(r[0], float) and False]
+        # classify rows: removal-branch rows carry the spacing `stop` and a spec ending in _<n>
+        i = 0
+        sizes = [s[1] for s in rec.get("sizes", [])]
+        n_sweep = 0
+        seq = []
+        for r in body:
+            if r[0] == "N/A":
+                e1 = r[3]
+                seq.append(("one",))
+            elif isinstance(r[1], str) and r[1].rsplit("_", 1)[-1].isdigit() and r[1].count("_") >= 3 and i >= 3:
+                seq.append(("sub", int(r[2]), r[3]))
+            else:
+                seq.append(("sp", r[0], int(r[2]), r[3]))
+            i += 1
+        sp_idx = [j for j, s in enumerate(seq) if s[0] == "sp"]
+        has_sweep = not any(s[0] in ("one", "sub") for s in seq) and len(sp_idx) > 2 and len(sizes) >= 2
+        sweep_idx = sp_idx[-11:] if has_sweep and len(sp_idx) >= 13 else []
+        if has_sweep and not sweep_idx and len(sp_idx) >= 2 + 10:
+            sweep_idx = sp_idx[-10:]
+        hi_sp = Fraction(seq[sweep_idx[0]][1]) if sweep_idx else None
+        for j, s in enumerate(seq):
+            if s[0] == "one":
+                tr.append("one")
+            elif s[0] == "sub":
+                esub[s[1]] = s[2]
+                tr.append(f"sub{s[1]}")
+            else:
+                if j in sweep_idx:
+                    k = sweep_idx.index(j)
+                    key = hi_sp + k * Fraction(step) / 10
+                    szv = sizes[k] if k < len(sizes) else 0.0
+                else:
+                    key = Fraction(s[1])
+                    szv = 0.0
+                table[key] = (s[2], s[3], szv)
+                tr.append(f"s{key.numerator}/{key.denominator}")
+        nsub = max(esub) if esub else 0
+        esub_l = [esub.get(n, SENT) for n in range(1, nsub + 1)]
+        parts = ["rw", core.rs(start), core.rs(stop), core.rs(step), "1" if cont else "0", "10", core.rs(e1), str(len(table))]
+        for key, (nb, e, szv) in table.items():
+            parts += [f"{key.numerator}/{key.denominator}", str(nb), core.rs(e), core.rs(szv)]
+        parts += [str(len(esub_l))] + [core.rs(v) for v in esub_l]
+        real = "selected" if rec["outcome"] == "design" else rec["outcome"]
+        return {"line": " ".join(parts), "real": real, "trace": " ".join(tr), "kind": "rw", "nbh": rec.get("nbh"), "n_sweep": len(sweep_idx)}
+    return None
+
+
+def compare_replay(rp, model_out):
+    """-> (agree: bool, detail).  Outcome kind, selection (index) and evaluation trace must agree."""
+    mo, _, mt = model_out.partition(" | ")
+    mo, mt = mo.strip(), mt.strip()
+    kind = rp["kind"]
+    if kind == "b1d":
+        msel = " ".join(mo.split()[:2]) if mo.startswith("selected") else mo
+        ok = (msel == rp["real"] or (mo.startswith("raise") and rp["real"] == mo)) and mt == rp["trace"]
+    elif kind in ("b2d", "bzd"):
+        msel = " ".join(mo.split()[:3]) if mo.startswith("selected") else mo
+        ok = msel == rp["real"] and mt == rp["trace"]
+    else:
+        ok = (mo.split()[0] == rp["real"].split()[0]) and mt == rp["trace"]
+        if not ok and rp.get("n_sweep") == 10:
+            # float accumulation in `current_spacing += spacing_change` dropped the 11th target: near-boundary
+            ok = (mo.split()[0] == rp["real"].split()[0]) and mt.split()[:-1] == rp["trace"].split()
+    return ok, {"model": model_out, "real": rp["real"], "real_trace": rp["trace"]}
